@@ -604,8 +604,40 @@ impl AssemblyCode {
                             }
                             if let Some(v) = &x_register {
                                 if v.eq(&inst.dasm_operand) {
-                                    // Remove this instruction
-                                    remove_second = !inst.protected;
+                                    // Remove this instruction, unless its flags may be needed: they
+                                    // are still those of the first load, or the next instruction
+                                    // sets N and Z itself
+                                    let flags_dead = match iter.peek() {
+                                        Some(AsmLine::Instruction(n)) => matches!(
+                                            n.mnemonic,
+                                            AsmMnemonic::LDA
+                                                | AsmMnemonic::LDX
+                                                | AsmMnemonic::LDY
+                                                | AsmMnemonic::TAX
+                                                | AsmMnemonic::TAY
+                                                | AsmMnemonic::TXA
+                                                | AsmMnemonic::TYA
+                                                | AsmMnemonic::ADC
+                                                | AsmMnemonic::SBC
+                                                | AsmMnemonic::EOR
+                                                | AsmMnemonic::AND
+                                                | AsmMnemonic::ORA
+                                                | AsmMnemonic::CMP
+                                                | AsmMnemonic::CPX
+                                                | AsmMnemonic::CPY
+                                                | AsmMnemonic::INC
+                                                | AsmMnemonic::INX
+                                                | AsmMnemonic::INY
+                                                | AsmMnemonic::DEC
+                                                | AsmMnemonic::DEX
+                                                | AsmMnemonic::DEY
+                                                | AsmMnemonic::PLA
+                                        ),
+                                        _ => false,
+                                    };
+                                    if flags == FlagsState::X || flags_dead {
+                                        remove_second = !inst.protected;
+                                    }
                                 }
                             }
                             x_register = Some(inst.dasm_operand.clone());
@@ -624,8 +656,40 @@ impl AssemblyCode {
                             }
                             if let Some(v) = &y_register {
                                 if v.eq(&inst.dasm_operand) {
-                                    // Remove this instruction
-                                    remove_second = !inst.protected;
+                                    // Remove this instruction, unless its flags may be needed: they
+                                    // are still those of the first load, or the next instruction
+                                    // sets N and Z itself
+                                    let flags_dead = match iter.peek() {
+                                        Some(AsmLine::Instruction(n)) => matches!(
+                                            n.mnemonic,
+                                            AsmMnemonic::LDA
+                                                | AsmMnemonic::LDX
+                                                | AsmMnemonic::LDY
+                                                | AsmMnemonic::TAX
+                                                | AsmMnemonic::TAY
+                                                | AsmMnemonic::TXA
+                                                | AsmMnemonic::TYA
+                                                | AsmMnemonic::ADC
+                                                | AsmMnemonic::SBC
+                                                | AsmMnemonic::EOR
+                                                | AsmMnemonic::AND
+                                                | AsmMnemonic::ORA
+                                                | AsmMnemonic::CMP
+                                                | AsmMnemonic::CPX
+                                                | AsmMnemonic::CPY
+                                                | AsmMnemonic::INC
+                                                | AsmMnemonic::INX
+                                                | AsmMnemonic::INY
+                                                | AsmMnemonic::DEC
+                                                | AsmMnemonic::DEX
+                                                | AsmMnemonic::DEY
+                                                | AsmMnemonic::PLA
+                                        ),
+                                        _ => false,
+                                    };
+                                    if flags == FlagsState::Y || flags_dead {
+                                        remove_second = !inst.protected;
+                                    }
                                 }
                             }
                             y_register = Some(inst.dasm_operand.clone());
